@@ -11,6 +11,7 @@ fn main() {
         "codec_replay" => vharness::codecrec::codec_replay(&a),
         "mac" => vharness::macdrv::vh_mac(&a),
         "macreplay" => vharness::macdrv::vh_macreplay(&a),
+        "macmc" => vharness::macdrv::vh_macmc(&a),
         "cmds_items" => vharness::cmdrec::cmds_items(&a),
         "cmds_fields" => vharness::cmdrec::cmds_fields(&a),
         "idtext" => vharness::cmdrec::idtext(&a),
